@@ -117,6 +117,8 @@ class Sym:
             return "(decide (%s %s %s))" % (a, {"<": "<", "<=": "≤", ">": ">", ">=": "≥"}[o], b)
         if isinstance(n, ast.UnaryOp) and isinstance(n.op, ast.Not):
             return "(!%s)" % self._ev(n.operand, e0)
+        if isinstance(n, ast.UnaryOp) and isinstance(n.op, ast.USub) and self.ty == "Int":
+            return "(-%s)" % self._ev(n.operand, e0)
         raise TranslateError("%s: expression outside the grammar: %r" % (self.what, e0))
 
     # ---- statements ----
@@ -670,12 +672,148 @@ def _reservedvector(repo, out):
     out.append(_defn("rvHashEnd", P, nat, Sym("hash_value", env()).expr(e), "hash_value: number of slots hashed"))
 
 
+def _class_text(src, name):
+    m = re.search(r"\bclass\s+%s\b\s*\{" % name, src)
+    if not m:
+        raise TranslateError("class %s not found" % name)
+    return _body_after(src, m.start(), name)
+
+
+_SELF = re.compile(r"static_cast\s*<\s*(?:const\s+DerivedType|DerivedType\s+const|DerivedType)\s*\*\s*>\s*\(\s*this\s*\)\s*->")
+_RETSELF = re.compile(r"return\s+\*\s*static_cast\s*<\s*DerivedType\s*\*\s*>\s*\(\s*this\s*\)")
+_COPY = re.compile(r"DerivedType\s+(\w+)\s*\(\s*static_cast\s*<\s*(?:DerivedType\s+const|const\s+DerivedType)\s*&\s*>\s*\(\s*\*this\s*\)\s*\)")
+
+
+def _member_op(cls, op_re, args_re, what):
+    ms = list(re.finditer(r"operator\s*" + op_re + r"\s*\(\s*" + args_re + r"\s*\)\s*(?:const)?\s*(?=\{)", cls))
+    if len(ms) != 1:
+        raise TranslateError("%s: expected one definition, found %d" % (what, len(ms)))
+    return ms[0], _stmts(_body_after(cls, ms[0].end(), what))
+
+
+def _facade(repo, out):
+    src = _strip_comments(open(os.path.join(repo, "dune/common/iteratorfacades.hh")).read())
+    ra = _class_text(src, "RandomAccessIteratorFacade")
+    fw = _class_text(src, "ForwardIteratorFacade")
+    out.append("/-- the primitive of the derived iterator class a facade operator forwards to -/")
+    out.append("inductive Prim where\n  | increment | decrement | advance\n  deriving Repr, DecidableEq")
+
+    def pre(cls, op_re, lean, what):
+        m, st = _member_op(cls, op_re, r"", what)
+        if len(st) != 2 or not _RETSELF.fullmatch(st[1]):
+            raise TranslateError("%s: expected `derived.prim(); return derived;`, got %r" % (what, st))
+        c = re.fullmatch(_SELF.pattern + r"\s*(increment|decrement)\s*\(\s*\)", st[0])
+        if not c:
+            raise TranslateError("%s: call outside the grammar: %r" % (what, st[0]))
+        out.append(_defn(lean, [], "Prim", "." + c.group(1), "%s forwards to" % what))
+
+    def post(cls, op, lean, what):
+        m, st = _member_op(cls, re.escape(op), r"int", what)
+        if len(st) != 3:
+            raise TranslateError("%s: expected three statements, got %r" % (what, st))
+        call = r"this\s*->\s*operator\s*" + re.escape(op) + r"\s*\(\s*\)"
+        if _COPY.fullmatch(st[0]) and re.fullmatch(call, st[1]) and st[2] == "return " + _COPY.fullmatch(st[0]).group(1):
+            old = "true"
+        elif re.fullmatch(call, st[0]) and _COPY.fullmatch(st[1]) and st[2] == "return " + _COPY.fullmatch(st[1]).group(1):
+            old = "false"
+        else:
+            raise TranslateError("%s: statements outside the grammar: %r" % (what, st))
+        out.append(_defn(lean, [], "Bool", old, "%s: the copy that is returned is taken before the step" % what))
+
+    pre(ra, r"\+\+", "facPreInc", "RandomAccessIteratorFacade::operator++()")
+    pre(ra, r"--", "facPreDec", "RandomAccessIteratorFacade::operator--()")
+    post(ra, "++", "facPostIncReturnsOld", "RandomAccessIteratorFacade::operator++(int)")
+    post(ra, "--", "facPostDecReturnsOld", "RandomAccessIteratorFacade::operator--(int)")
+    pre(fw, r"\+\+", "fwdPreInc", "ForwardIteratorFacade::operator++()")
+    post(fw, "++", "fwdPostIncReturnsOld", "ForwardIteratorFacade::operator++(int)")
+
+    # operator[](n), += n, -= n, + n, - n : the argument handed to elementAt / advance
+    m, st = _member_op(ra, r"\[\]", r"DifferenceType\s+(\w+)", "RandomAccessIteratorFacade::operator[]")
+    c = len(st) == 1 and re.fullmatch(r"return\s+" + _SELF.pattern + r"\s*elementAt\s*\((.+)\)", st[0], flags=re.S)
+    if not c:
+        raise TranslateError("RandomAccessIteratorFacade::operator[] outside the grammar: %r" % st)
+    out.append(_defn("facIndexArg", [("n", "Int")], "Int", Sym("operator[]", {m.group(1): "n"}, "Int").expr(c.group(1)), "it[n] = derived.elementAt(this)"))
+    # `+= n` must call advance directly; `-= n`, `+ n`, `- n` may call advance or forward (one level) to `+=` / `-=`
+    compound = {}   # "+=" / "-=" -> (parameter name, C++ argument expression handed to advance)
+
+    def moved(callee, arg, param, what):
+        """the Lean argument advance() finally receives when `callee` is applied to the C++ expression `arg`"""
+        inner = Sym(what, {param: "n"}, "Int").expr(arg)
+        if callee == "advance":
+            return inner
+        if callee not in compound:
+            raise TranslateError("%s: forwards to operator%s, which is not translated yet" % (what, callee))
+        p2, e2 = compound[callee]
+        return Sym(what, {p2: inner}, "Int").expr(e2)
+
+    for op, lean, what in (("+=", "facPlusEqArg", "operator+="), ("-=", "facMinusEqArg", "operator-=")):
+        m, st = _member_op(ra, re.escape(op), r"DifferenceType\s+(\w+)", "RandomAccessIteratorFacade::" + what)
+        if len(st) != 2 or not _RETSELF.fullmatch(st[1]):
+            raise TranslateError("RandomAccessIteratorFacade::%s outside the grammar: %r" % (what, st))
+        c = re.fullmatch(_SELF.pattern + r"\s*advance\s*\((.+)\)", st[0], flags=re.S)
+        f = re.fullmatch(r"(?:this\s*->\s*operator\s*(\+=|-=)\s*\((.+)\)|\(?\s*\*\s*this\s*\)?\s*(\+=|-=)\s*(.+))", st[0], flags=re.S)
+        if c:
+            val = moved("advance", c.group(1), m.group(1), what)
+            compound[op] = (m.group(1), c.group(1))
+        elif f and (f.group(1) or f.group(3)) != op:
+            val = moved(f.group(1) or f.group(3), f.group(2) or f.group(4), m.group(1), what)
+        else:
+            raise TranslateError("RandomAccessIteratorFacade::%s outside the grammar: %r" % (what, st))
+        out.append(_defn(lean, [("n", "Int")], "Int", val, "%s n: the argument derived.advance() receives" % what))
+    for op_re, lean, what in ((r"\+", "facPlusArg", "operator+"), (r"-", "facMinusArg", "operator-")):
+        ms = [x for x in re.finditer(r"operator\s*" + op_re + r"\s*\(\s*DifferenceType\s+(\w+)\s*\)\s*const\s*(?=\{)", ra)]
+        if len(ms) != 1:
+            raise TranslateError("RandomAccessIteratorFacade::%s(n): expected one definition" % what)
+        st = _stmts(_body_after(ra, ms[0].end(), what))
+        cp = len(st) == 3 and _COPY.fullmatch(st[0])
+        if not cp or st[2] != "return " + cp.group(1):
+            raise TranslateError("RandomAccessIteratorFacade::%s(n) outside the grammar: %r" % (what, st))
+        t = re.escape(cp.group(1))
+        c = re.fullmatch(t + r"\s*\.\s*advance\s*\((.+)\)", st[1], flags=re.S)
+        f = re.fullmatch(t + r"\s*(\+=|-=)\s*(.+)", st[1], flags=re.S) or re.fullmatch(t + r"\s*\.\s*operator\s*(\+=|-=)\s*\((.+)\)", st[1], flags=re.S)
+        if c:
+            val = moved("advance", c.group(1), ms[0].group(1), what)
+        elif f:
+            val = moved(f.group(1), f.group(2), ms[0].group(1), what)
+        else:
+            raise TranslateError("RandomAccessIteratorFacade::%s(n) outside the grammar: %r" % (what, st))
+        out.append(_defn(lean, [("n", "Int")], "Int", val, "it %s n: the argument copy.advance() receives" % what[-1]))
+
+    # the free operators: `if(is_convertible<T2,T1>) return E1; else return E2;` over lhs.distanceTo(rhs) / rhs.distanceTo(lhs)
+    k = src.find("class RandomAccessIteratorFacade")
+    free = src[k:]
+    LR = r"static_cast\s*<\s*const\s+T1\s*&\s*>\s*\(\s*lhs\s*\)\s*\.\s*%s\s*\(\s*static_cast\s*<\s*const\s+T2\s*&\s*>\s*\(\s*rhs\s*\)\s*\)"
+    RL = r"static_cast\s*<\s*const\s+T2\s*&\s*>\s*\(\s*rhs\s*\)\s*\.\s*%s\s*\(\s*static_cast\s*<\s*const\s+T1\s*&\s*>\s*\(\s*lhs\s*\)\s*\)"
+    for op, lean, prim, ty in (("==", "facEq", "equals", "Bool"), ("!=", "facNe", "equals", "Bool"), ("<", "facLt", "distanceTo", "Bool"),
+                               ("<=", "facLe", "distanceTo", "Bool"), (">", "facGt", "distanceTo", "Bool"), (">=", "facGe", "distanceTo", "Bool"),
+                               ("-", "facDiff", "distanceTo", "Int")):
+        m = re.search(r"operator\s*" + re.escape(op) + r"\s*\(\s*const\s+RandomAccessIteratorFacade\s*<\s*T1\s*,\s*V1\s*,\s*R1\s*,\s*D\s*>\s*&\s*lhs\s*,\s*const\s+RandomAccessIteratorFacade\s*<\s*T2\s*,\s*V2\s*,\s*R2\s*,\s*D\s*>\s*&\s*rhs\s*\)\s*(?=\{)", free)
+        if not m:
+            raise TranslateError("RandomAccessIteratorFacade free operator%s not found" % op)
+        body = _body_after(free, m.end(), "operator" + op)
+        b = re.fullmatch(r"\s*if\s*(?:constexpr\s*)?\(\s*std::is_convertible(?:_v)?\s*<\s*T2\s*,\s*T1\s*>\s*(?:::value)?\s*\)\s*return\s+([^;]+);\s*else\s+return\s+([^;]+);\s*", body, flags=re.S)
+        if not b:
+            raise TranslateError("free operator%s outside the grammar" % op)
+        for e, suf in ((b.group(1), "1"), (b.group(2), "2")):
+            e = re.sub(LR % prim, "pLR", e)
+            e = re.sub(RL % prim, "pRL", e)
+            if prim == "equals":
+                env = {"pLR": "(eq l r)", "pRL": "(eq r l)"}
+                params = [("eq", "Nat → Nat → Bool"), ("l", "Nat"), ("r", "Nat")]
+            else:
+                env = {"pLR": "(dist l r)", "pRL": "(dist r l)"}
+                params = [("dist", "Int → Int → Int"), ("l", "Int"), ("r", "Int")]
+            out.append(_defn(lean + suf, params, ty, Sym("operator" + op, env, "Int").expr(e),
+                             "lhs %s rhs, %s branch (`l`, `r` = the positions of lhs, rhs)" % (op, "convertible" if suf == "1" else "other")))
+
+
 def translate(repo):
-    out = ["-- GENERATED by tools/translators/tr_c11.py from dune/common/arraylist.hh, bitsetvector.hh, reservedvector.hh -- do not edit",
+    out = ["-- GENERATED by tools/translators/tr_c11.py from dune/common/arraylist.hh, bitsetvector.hh, reservedvector.hh, iteratorfacades.hh -- do not edit",
            "set_option linter.unusedVariables false", "namespace DV.C11.Gen", ""]
     _arraylist(repo, out)
     _bitsetvector(repo, out)
     _reservedvector(repo, out)
+    _facade(repo, out)
     out.append("")
     out.append("end DV.C11.Gen")
     return [("DuneVerif/Gen/C11.lean", "\n".join(out) + "\n")]
